@@ -4,6 +4,7 @@ C07 — tracks do not interfere; intra-tick order is fixed; shared static state 
 import IsobarV.Sched.BalanceOps
 import IsobarV.Sched.Fields
 import IsobarV.Sched.Solo
+import IsobarV.Static.Model
 
 namespace IsobarV.C07
 open IsobarV.Sched
@@ -147,5 +148,66 @@ theorem solo_run (W : World) (hW : NoActions W) (tl : TL) (t : Track)
 theorem prepared_pointwise (tl : TL) :
     prepared tl = tl.tracks.map (fun t => applyStarts tl.q (tl.actions.filter (PAct.due tl)) (t.processOffs tl.q)) := by
   simp [prepared, List.map_map, Function.comp_def]
+
+/-! ### Shared static state (`PStaticPattern`, `Globals`)
+
+`Static/Model.lean` is the state machine of `PStaticPattern.__next__` over read times; the harness
+feeds the real pattern's read times to it and compares the element returned (`driver static`). -/
+
+open IsobarV.Static in
+/-- **Idempotent at a fixed time**: however often a static pattern is read at one time (by one track or
+    by several), the state after the first read is final — every reader of that time sees one value. -/
+theorem static_idempotent (s : Static.St) (t d : Rat) (hd : 0 < d) :
+    (s.read t d).read t d = s.read t d := by
+  have h0 : ¬ d ≤ t - t := by
+    rw [Rat.sub_self]; exact Rat.not_le.mpr hd
+  have key : ∀ (i : Nat), (({ idx := i, start := some t } : Static.St).read t d) = { idx := i, start := some t } := by
+    intro i; simp [Static.St.read, h0]
+  cases hs : s.start with
+  | none =>
+    have : s.read t d = { idx := s.idx + 1, start := some t } := by simp [Static.St.read, hs]
+    rw [this, key]
+  | some st =>
+    by_cases hh : d ≤ t - st
+    · have : s.read t d = { idx := s.idx + 1, start := some t } := by simp [Static.St.read, hs, hh]
+      rw [this, key]
+    · have : s.read t d = s := by simp [Static.St.read, hs, hh]
+      rw [this, this]
+
+open IsobarV.Static in
+/-- **Never skipped**: a read advances by at most one element. -/
+theorem static_never_skips (s : Static.St) (t d : Rat) :
+    (s.read t d).idx = s.idx ∨ (s.read t d).idx = s.idx + 1 := by
+  unfold Static.St.read
+  cases s.start with
+  | none => right; rfl
+  | some st => simp only []; split <;> simp
+
+open IsobarV.Static in
+/-- **Held at least its duration**: the value changes at a read only if the current element has been
+    held for at least `d` beats since the read that selected it — however often it was read in between. -/
+theorem static_hold (s : Static.St) (t d st : Rat) (hs : s.start = some st)
+    (hchg : (s.read t d).idx ≠ s.idx) : d ≤ t - st := by
+  unfold Static.St.read at hchg
+  simp only [hs] at hchg
+  split at hchg
+  · assumption
+  · exact absurd rfl hchg
+
+open IsobarV.Static in
+/-- … and conversely a read before that keeps the value (and the selection time). -/
+theorem static_keeps (s : Static.St) (t d st : Rat) (hs : s.start = some st) (h : ¬ d ≤ t - st) :
+    s.read t d = s := by
+  unfold Static.St.read; simp [hs, h]
+
+open IsobarV.Static in
+/-- **A globals read returns the latest value set, or the given default.** -/
+theorem globals_get_set (m : Static.GMap) (k k' : String) (v dflt : Int) :
+    gget (gset m k v) k dflt = v ∧ (k' ≠ k → gget (gset m k v) k' dflt = gget m k' dflt) ∧ gget [] k dflt = dflt := by
+  refine ⟨by simp [gget, gset], fun h => ?_, rfl⟩
+  have : ((k, v).1 == k') = false := by simpa using fun hh => h hh.symm
+  simp [gget, gset, this]
+
+example : (Static.reads 2 {} [0, 1, 1, 2, 3, 4, 9]).idx = 4 := by decide +kernel
 
 end IsobarV.C07
